@@ -29,7 +29,8 @@ CONSTANTS NI0,        \* number of interval ids in year 0 (ids 1..NI0); id 1 is 
           TfClass,    \* "intraday" | "daily"
           MaxRows,    \* rows per write request
           Depth,      \* requests per history
-          Deviations  \* subset of {"DailyJan1Hole", "PrevYearStale"} the unchanged tree is known to show
+          EdgeOff,    \* offset class (or 99 = none) whose tick value decodes to within 5 ns below a whole second
+          Deviations  \* subset of {"DailyJan1Hole", "PrevYearStale", "LateSecond"}: known behaviour of the tree
 
 VARIABLES abs,      \* abstract content
           implP,    \* implementation state, pure (no deviation)
@@ -65,8 +66,8 @@ AbsWrite(a, rows) == IF Kind = "fixed" THEN AbsWriteFixed(a, rows) ELSE a \o row
 Less(r1, r2) == r1.i < r2.i \/ (r1.i = r2.i /\ r1.o < r2.o)
 AbsRead(a) == IF Kind = "fixed"
               THEN LET S == {i \in Ivs : a[i] # 0}
-                   IN  SortSeq(SetToSeq({[i |-> i, o |-> 0, v |-> a[i]] : i \in S}), Less)
-              ELSE SortSeq(a, Less)   \* SortSeq is stable w.r.t. nothing in particular; compare as time-keyed bags
+                   IN  SortSeq(SetToSeq({[i |-> i, o |-> 0, v |-> a[i], late |-> FALSE] : i \in S}), Less)
+              ELSE SortSeq([k \in 1..Len(a) |-> [i |-> a[k].i, o |-> a[k].o, v |-> a[k].v, late |-> FALSE]], Less)   \* SortSeq is stable w.r.t. nothing in particular; compare as time-keyed bags
 
 (***************************************************************************)
 (* Implementation-shaped semantics                                         *)
@@ -120,13 +121,18 @@ ApplyAll(f, cmds) == IF cmds = <<>> THEN f ELSE ApplyAll(ApplyCmd(f, Head(cmds))
 ImplWrite(f, rows, devs) == ApplyAll(f, Commands(rows, devs))
 
 \* scan: year files in order, data area = slots 1..MaxSlot, a stored index of 0 marks a hole
-RECURSIVE CellRows(_, _, _)
-CellRows(i, recs, k) == IF k > Len(recs) THEN <<>> ELSE <<[i |-> i, o |-> recs[k].o, v |-> recs[k].v]>> \o CellRows(i, recs, k + 1)
+\* GetTimeFromTicks rounds the second up but keeps the nanoseconds of the unrounded value: a record whose
+\* ticks decode to within 5 ns below a whole second is reported one second late ("LateSecond")
+RECURSIVE CellRows(_, _, _, _)
+CellRows(i, recs, k, devs) ==
+  IF k > Len(recs) THEN <<>>
+  ELSE <<[i |-> i, o |-> recs[k].o, v |-> recs[k].v, late |-> ("LateSecond" \in devs /\ recs[k].o = EdgeOff)]>>
+       \o CellRows(i, recs, k + 1, devs)
 RECURSIVE Scan(_, _, _, _)
 Scan(f, y, s, devs) ==
   IF y > 1 THEN <<>>
   ELSE IF s > MaxSlot THEN Scan(f, y + 1, 1, devs)
-  ELSE (IF f[y][s].idx # 0 /\ IvOf(y, s, devs) \in Ivs THEN CellRows(IvOf(y, s, devs), f[y][s].recs, 1) ELSE <<>>)
+  ELSE (IF f[y][s].idx # 0 /\ IvOf(y, s, devs) \in Ivs THEN CellRows(IvOf(y, s, devs), f[y][s].recs, 1, devs) ELSE <<>>)
        \o Scan(f, y, s + 1, devs)
 ImplRead(f, devs) == Scan(f, 0, 1, devs)
 
@@ -135,7 +141,9 @@ ImplRead(f, devs) == Scan(f, 0, 1, devs)
 (***************************************************************************)
 HitJan1(rows) == TfClass = "daily" /\ \E k \in 1..Len(rows) : IsFirst(rows[k].i)
 HitStale(rows) == Commands(rows, {}) # Commands(rows, {"PrevYearStale"})
+HitLate(rows) == Kind = "variable" /\ \E k \in 1..Len(rows) : rows[k].o = EdgeOff
 Hits(rows) == (IF "DailyJan1Hole" \in Deviations /\ HitJan1(rows) THEN {"DailyJan1Hole"} ELSE {})
+         \cup (IF "LateSecond" \in Deviations /\ HitLate(rows) THEN {"LateSecond"} ELSE {})
          \cup (IF "PrevYearStale" \in Deviations /\ HitStale(rows) THEN {"PrevYearStale"} ELSE {})
 
 (***************************************************************************)
